@@ -79,6 +79,9 @@ fn analysis_rule(r: &Value) -> Rule {
     let path = r["path"][1].as_str().unwrap().replace("@m", "ab");
     let host = match r["host"][0].as_str().unwrap_or("none") { "static" => r["host"][1].as_str().unwrap().to_string(), "dyn" => "ab.example.com".to_string(), _ => "example.com".to_string() };
     let scheme = if s(r, "scheme").is_empty() { "http".to_string() } else { s(r, "scheme") };
+    // some rules stop / reset the fold (the action trace must show it)
+    if id == "r2" { v["stop"] = json!(true); }
+    if id == "r3" { v["reset"] = json!(true); v["configuration_reset_unit_id"] = json!("u-reset-r3"); }
     v["redirect_unit_id"] = json!(format!("u-{}", id));
     v["target_hash"] = json!(format!("th-{}", id));
     v["header_filters"] = json!([{"action": "add", "header": "X-Rule", "value": id, "id": format!("uh-{}", id), "target_hash": format!("thh-{}", id)}]);
